@@ -37,6 +37,15 @@ ExtraTemplates ==
 \* in the small configuration)
 Firsts == {E(A), Let("x", Num("1")), Let("g", Fn(Nil, <<>>, <<>>)), E(Node("asg", "=", <<Id("x"), Node("obj", "", <<Id("k"), Num("1")>>)>>))}
 AllTemplates == Templates \cup ExtraTemplates
+\* three statements: a decorated gap, then a statement that begins harmlessly, then - with no gap of
+\* its own - one whose first token would continue the previous statement (or an else that needs
+\* its semicolon).  What the writer remembers about an omitted semicolon must not outlive the
+\* statement it belongs to.
+Harmless == {E(B), Let("y", Num("2")), E(Node("call", "", <<Id("g")>>)), E(Node("post", "++", <<A>>))}
+Hazards == {E(Node("call", "", <<Grp(Fn(Nil, <<>>, <<>>))>>)), E(Node("idx", "", <<Node("arr", "", <<A>>), Num("0")>>)),
+            E(Node("un", "-", <<A>>)), E(Node("un", "++", <<A>>)), E(Node("raw", "r", <<>>)),
+            If(A, E(Node("call", "", <<B>>)), E(Node("call", "", <<Id("c")>>))), E(Node("call", "", <<Grp(B)>>))}
+Triples == {<<f, g, h>> : f \in {E(A), Let("x", Num("1")), Let("g", Fn(Nil, <<>>, <<>>))}, g \in Harmless, h \in Hazards}
 
 Init == ss = <<>>
 Next == Len(ss) < MaxStmts /\ \E s \in AllTemplates : ss' = Append(ss, s)
@@ -70,6 +79,24 @@ InnerGaps(ts, anch) == {j \in 2..Len(ts) : ~ts[j].nonl /\ j \notin anch}
 InnerDecos == {<<"T">>, <<"O">>, <<"T", "O">>, <<"B", "O">>, <<"O", "B">>}
 
 Cfgs == <<Compact, Pretty(<<32, 32>>, TRUE), Pretty(<<9>>, FALSE)>>
+ExportTriple(toks, pre) ==
+  Export => PrintT(ToJson([toks |-> [j \in 1..Len(toks) |-> [ty |-> toks[j].ty, lit |-> toks[j].lit, nl |-> toks[j].nl,
+                                                            pre |-> IF j \in DOMAIN pre THEN pre[j] ELSE <<>>]],
+                           mouts |-> <<>>, triple |-> TRUE]))
+\* anchors 2.. of the first two statement boundaries only (the third statement follows directly)
+TripleInv ==
+  (Len(ss) = 0) =>
+    \A tr \in Triples : \A wrap \in BOOLEAN :
+      LET p == IF wrap THEN Prog(<<Node("fdecl", "", <<Id("h"), PList(<<>>), Blk(tr)>>)>>) ELSE Prog(tr)
+          ts == RenderProg(p, FALSE, <<>>)
+      IN \A sep \in {1, 3} :
+           LET toks == Layout(ts, sep, {})
+               sbs  == {j \in 1..Len(ts) : ts[j].sb}
+               second == IF sbs = {} THEN 0 ELSE CHOOSE j \in sbs : \A i \in sbs : j <= i
+           IN second > 0 =>
+                \A dc \in {<<"B">>, <<"O">>, <<"T">>, <<"B", "O">>, <<"T", "B">>} :
+                  ExportTriple(toks, (second :> PreOf(dc, second)))
+
 Inv == \A p \in Programs :
          StmtStartsOK(p, <<>>) =>
            LET ts == RenderProg(p, FALSE, <<>>) IN
